@@ -63,7 +63,7 @@ func H_c04_history() {
 	var refID [2][]uint32
 	var refSize [2][]int
 	next := uint32(1)
-	k := 1 + nondet_choice("steps", verifHistorySteps)
+	k := 1 + nondet_choice("steps", verif_bound("history-steps", verifHistorySteps, 6))
 	for s := 0; s < k; s++ {
 		w := nondet_choice("agent", 2)
 		switch nondet_choice("op", 2) {
